@@ -46,16 +46,28 @@ def pipeline(item):
     C = _cls(item["family"])
     V = item["V"]
     X = build_X(item)
-    mats = []
+    mats, codes = [], []
     for k in range(item["n_iter"] + 1):
         kw = dict(token_dictionary={TOKS[i]: i for i in range(V)}, window_radii=item.get("r", 2), window_orientations="directional",
                   n_iter=k, epsilon=item["eps"], normalize_windows=item.get("wnorm", True))
+        kern = item.get("kernel", "flat")
+        if kern != "flat":
+            kw["kernel_functions"] = kern
+            ka = {"power": 0.5} if kern == "geometric" else {}
+            if item["family"] == "timed":
+                ka["delta"] = 1.0
+            kw["kernel_args"] = ka
         if item["family"] == "ngram":
             kw.pop("token_dictionary")
             kw["ngram_size"] = 2
         kw.update(item.get("extra") or {})
-        M = C(**kw).fit_transform(X).toarray().astype(np.float64)
+        S = C(**kw).fit_transform(X).tocsr()
+        S.eliminate_zeros()
+        M = S.toarray().astype(np.float64)
         mats.append(M)
+        # cell codes for Trace_EMChain: 0 = absent, q + 1 = present with q = floor(v * unit)
+        unit = 10 ** 4 if (k == 0 and item["eps"] == 0) else 10 ** 6
+        codes.append([[0 if v == 0 else int(np.floor(v * unit)) + 1 for v in row] for row in M])
     FX = 10 ** 6
-    return {"mats": [[[int(round(v * FX)) for v in row] for row in M] for M in mats],
+    return {"codes": codes, "mats": [[[int(round(v * FX)) for v in row] for row in M] for M in mats],
             "finite": bool(all(np.all(np.isfinite(M)) for M in mats)), "shape": list(mats[0].shape)}
